@@ -699,12 +699,19 @@ impl<S: USet> Eng<S> {
             "min" => S::pick(&rest, false),
             "max" => S::pick(&rest, true),
             "last" => rest.last().cloned(),
+            "nth" => rest.get(2).cloned(),
+            "fold" => Some(rest.iter().fold(0u64, |a, &x| a.wrapping_mul(31).wrapping_add(x))),
+            "skip" => if rest.len() > 1 { rest.last().cloned() } else { None },
+            "step" => Some(((rest.len() + 1) / 2) as u64),
+            "find" => rest.iter().cloned().find(|x| x & 1 == 1),
+            "byref" => Some(rest.len().min(2) as u64 * 1_000_000 + rest.len().saturating_sub(2) as u64),
             _ => Some(rest.len() as u64),
         };
+        let modelled = matches!(kind, "min" | "max" | "last" | "count" | "hint");
         match r {
             Ok(got) => {
                 let shown = got.map(|x| if kind == "last" || kind == "min" || kind == "max" { S::enc(x) } else { x });
-                if !(S::TYPED && (kind == "min" || kind == "max")) {
+                if modelled && !(S::TYPED && (kind == "min" || kind == "max")) {
                     self.emit(&format!("sc {} {} {} {}", i, pos, kind, shown.map(|x| x.to_string()).unwrap_or("none".into())));
                 }
                 if got != want {
@@ -712,7 +719,9 @@ impl<S: USet> Eng<S> {
                 }
             }
             Err(_) => {
-                self.emit(&format!("sc {} {} {} P", i, pos, kind));
+                if modelled {
+                    self.emit(&format!("sc {} {} {} P", i, pos, kind));
+                }
                 self.fail("C13", format!("{:?} iterator after {} next(): {}() panicked", which, pos, kind));
             }
         }
